@@ -180,6 +180,7 @@ func runC18(out io.Writer) {
 		}
 		c := c18Case{ID: id, Kind: "op", Name: m.Name}
 		id++
+		var esc *c18Case
 		func() {
 			defer func() {
 				if e := recover(); e != nil {
@@ -201,7 +202,18 @@ func runC18(out io.Writer) {
 			res := mv.Call(in)[0]
 			c.Result = res.Type().String()
 			c.SQL, c.Err = plainSQL(res.Interface().(builder.SQLWriter))
+			// the optional argument of the LIKE family: <method>(..).Escape(c) must keep the operator of <method>
+			if em := res.MethodByName("Escape"); em.IsValid() && em.Type().NumIn() == 1 && em.Type().In(0).Kind() == reflect.Int32 {
+				esc = &c18Case{ID: id, Kind: "op", Name: m.Name + ".Escape", ArgText: c.ArgText, NArgs: c.NArgs + 1}
+				id++
+				er := em.Call([]reflect.Value{reflect.ValueOf('!')})[0]
+				esc.Result = er.Type().String()
+				esc.SQL, esc.Err = plainSQL(er.Interface().(builder.SQLWriter))
+			}
 		}()
 		enc.Encode(c)
+		if esc != nil {
+			enc.Encode(esc)
+		}
 	}
 }
